@@ -666,14 +666,30 @@ def form_selection(ctx):
         else:
             ctx.check(R, outs == {want}, 'case:' + name, 'node form for [%s] is %s, the layout requires %s' % (name, sorted(outs), want), fn=f)
     # arguments handed to the encoders
+    def first_trans(e):
+        """True: element 0 of the transition list; False: another element; None: not recognised"""
+        while e[0] in ('cast',) or (e[0] == 'un' and e[1] == 'Deref'):
+            e = e[1] if e[0] == 'cast' else e[2]
+        if is_call(e, 'Index<I>>::index') or is_call(e, '::index'):
+            i = e[2][1]
+            return (i == ('const', 0)) if i[0] == 'const' else None
+        if e[0] == 'index':
+            i = e[2]
+            if isinstance(i, str):
+                return i == '[0]'
+            return (i == ('const', 0)) if i[0] == 'const' else None
+        return None
     for p in explore(f, max_visits=1):
         for (k, bid, callee, args, t) in path_calls(p):
             if callee == layout.ENC_NEXT:
                 ok = args[1][0] == 'param' and args[2][0] == 'field' and args[2][2] == 'inp'
                 ctx.check(R, ok, 'args:next', 'one-trans-next must be given (node address, input byte of the only transition)', fn=f)
             if callee == layout.ENC_ONE:
-                ok = args[1][0] == 'param' and is_call(args[2], 'Index<I>>::index') and args[2][2][1] == ('const', 0)
-                ctx.check(R, ok, 'args:one', 'one-trans must be given (node address, the only transition)', fn=f)
+                ft = first_trans(args[2])
+                if ft is None:
+                    ctx.undecided(R, 'args:one', 'the transition handed to the one-trans encoder is not a recognised "first element" form: %s' % fmt(args[2])[:80], fn=f)
+                else:
+                    ctx.check(R, args[1][0] == 'param' and ft, 'args:one', 'one-trans must be given (node address, the only transition)', fn=f)
             if callee == layout.ENC_ANY:
                 ok = args[1][0] == 'param' and args[2][0] == 'param'
                 ctx.check(R, ok, 'args:any', 'any-trans must be given (node address, node)', fn=f)
